@@ -73,7 +73,10 @@ def jobs(tier: str):
             yield job("C03/unit", prog, [], cfg, checks=["terminate"], meta={"stm": stm})
         nounused = [t for t in DEFAULT if t != "unused"]
         famcfg = [["minmax_chains"], ["sum_chains"], nounused, DEFAULT, TRAITS] if quick else CONFIG12 + [nounused]
-        for prog, inp in family_programs(tier):
+        fam_progs = list(family_programs(tier))
+        if quick and len(fam_progs) > 900:  # evenly spaced
+            fam_progs = [fam_progs[(k * len(fam_progs)) // 900] for k in range(900)]
+        for prog, inp in fam_progs:
             cfg = [config(t, i, o, NOORC) for t in famcfg for (i, o) in ((inp, []),)]
             yield job("C03/family", prog, [], cfg, checks=["terminate"], meta={})
         cfgs2 = [TRAITS] if quick else CONFIG12
